@@ -9,8 +9,8 @@ clock: 'sys' | 'app' | int (TempoClock index)
 task: an id into case['tasks'] = {id: {'rets': [...], 'do': [ops],
 'routine': bool}}; the same id scheduled again uses the same object (the
 clock moves it). rets are returned (yielded, for routines) by successive
-invocations: number (re-schedule), None, 'str' (a non-number), 'raise',
-'stop' (raise StopStream).
+invocations: number (re-schedule), None, 'str' (a non-number), 'inf' (the
+float inf: never again), 'raise', 'stop' (raise StopStream).
 Returns the observed history; the oracle lives in checks/c08.py.
 """
 
@@ -74,6 +74,8 @@ def run(sim, case):
                 do(op, 'task%d' % tid)
         rets = spec['rets']
         r = rets[k] if k < len(rets) else None
+        if r == 'inf':
+            r = float('inf')
         # the clock re-schedules after the task returns: this record
         # orders that re-scheduling among the other calls
         rec(ev='ret', task=tid, k=k, clock=cname)
